@@ -19,7 +19,7 @@ def run(facts, tier):
         ("duplicate operands", lambda fa: generic_lints.duplicate_conjuncts(fa, ('density/',)), 2, "no logical chain tests the same operand twice (copy-paste of the wrong peer)"),
         ("state-writing shortcuts", lambda fa: generic_lints.state_writing_shortcuts(fa, ['density_sketch']), 1, "no merge / update branch writes fields and returns early past the steps all other paths run (compaction loop, totals, cached counts); one reviewed exception"),
         ("post-increment", lambda fa: generic_lints.post_increment_semantics(fa, ('density/',)), 1, "it++ copies *this, advances once and returns the copy by value"),
-        ("structural triggers", lambda fa: triggers.obligations(fa, ['density_sketch']), 3, "the comparisons that decide when to resize / rebuild / compact / purge / promote keep their reviewed boundary (operator and constants)"),
+        ("structural triggers", lambda fa: triggers.obligations(fa, ['density_sketch']), 4, "the comparisons that decide when to resize / rebuild / compact / purge / promote keep their reviewed boundary (operator and constants)"),
     ):
         o = f(facts)
         obs += o
